@@ -1,6 +1,7 @@
 (* C14 - no device response makes an operation raise. Statements only. *)
 From MS Require Import lib.Base gen.GenConst gen.GenCmd model.Frame model.Command model.Response model.Device
-  proofs.DeviceProofs proofs.TotalProofs.
+  proofs.DeviceProofs proofs.TotalProofs proofs.HistoryProofs extract.Run.
+Local Open Scope N_scope.
 
 (* Response.construct on EVERY byte string (empty, truncated anywhere, oversized, any ids / counts / sizes) yields
    a response or one of the two exceptions the device layer catches. *)
@@ -42,6 +43,20 @@ Print Assumptions C14_start_self_clean.
 Theorem C14_responses_keep_props_small : forall n rs d, inv n d -> inv n (fold_left update_state rs d).
 Proof. exact (fold_update_inv unit (fun p _ => (p, []))). Qed.
 Print Assumptions C14_responses_keep_props_small.
+
+(* whole histories: ANY sequence of refresh / apply / get_capabilities / toggle_display / start_self_clean and setter calls (the
+   op codes of the evaluator the correspondence check runs, one-byte values for the four byte-valued setters), starting in
+   any state satisfying the invariant - in particular a fresh device - against ANY peer that answers with byte strings, never
+   raises, and the invariant (hence the precondition of every single-operation theorem above) holds again at the end *)
+Theorem C14_history : forall (P : Type) (peer : P -> bytes -> P * list bytes),
+  (forall p f, Forall wfb (snd (peer p f))) ->
+  forall ops w, hinv (w_dev w) -> args_ok ops ->
+  snd (do_ops_gen peer w ops) = 0%Z /\ hinv (w_dev (fst (do_ops_gen peer w ops))).
+Proof. exact history_never_raises. Qed.
+Theorem C14_fresh_device : hinv dev_init /\ forall d, hinv d -> dev_wf d.
+Proof. exact (conj hinv_init hinv_dev_wf). Qed.
+Print Assumptions C14_history.
+Print Assumptions C14_fresh_device.
 
 Example C14_nonvacuous :
   dev_wf dev_init /\ construct [] = Err EInvalidResponse
